@@ -1,8 +1,12 @@
 import SafeNet.Driver.Util
 import SafeNet.Model.QuoteFetch
+import SafeNet.Model.QuoteFlow
 /-! Driver for the client-side quote fetch (C13).
 `fetch found=<id.id...|-> ignore=<id...|-> ord=<k> <id>=<resp> ...`; `S` in `found` is the client's own peer id.
-resp = q:<addr>:<signer>:<content> (addr s|p<j>|n, signer s|p<j>|g, content o|x) | e | E | n | c | d | u -/
+resp = q:<addr>:<signer>:<content> (addr s|p<j>|n, signer s|p<j>|g, content o|x) | e | E | n | c | d | u
+`flow <peer 0..4> <live1> <paid1> <live2> <paid2>`: two fetch rounds over five honest peers, peer `<peer>` quoting the two
+metrics one after the other → `<fetch 1> ; <fetch 2> ; relayed=none|some` (did the client hand what it collected to anyone,
+`Model/QuoteFlow.relayed` under the regenerated dispatch fact) -/
 namespace SafeNet.Driver.QuoteFetch
 open SafeNet.Driver SafeNet.Model.QuoteFetch
 
@@ -60,6 +64,18 @@ def step (_ : Unit) (ws : List String) : Unit × String :=
         | .error .notEnoughPeers => ((), "err notenough")
         | .error .noStoreCostResponses => ((), "err noresponses")
     | _, _ => ((), "bad-op")
+  | ["flow", p, l1, c1, l2, c2] =>
+    match p.toNat?, l1.toNat?, c1.toNat?, l2.toNat?, c2.toNat? with
+    | some p, some l1, some c1, some l2, some c2 =>
+      if p > 4 then ((), "bad-op") else
+      let one := match fetch selfId [0, 1, 2, 3, 4] [] (fun _ => .quote ⟨.self, .self, true⟩) with
+        | .ok out => tagNats "ok" (sortNats out)
+        | .error _ => "err"
+      let rounds : List SafeNet.QuoteFlow.Round := [⟨2000, [(p, ⟨100, l1, c1⟩)]⟩, ⟨3000, [(p, ⟨1100, l2, c2⟩)]⟩]
+      let n := (rounds.map fun r =>
+        (SafeNet.QuoteFlow.relayed Gen.QuoteFetch.quoteVerificationDispatched r).length).sum
+      ((), s!"{one} ; {one} ; relayed={if n == 0 then "none" else "some"}")
+    | _, _, _, _, _ => ((), "bad-op")
   | _ => ((), "bad-op")
 
 /-- model search: single-peer deviations among five otherwise honest peers on which the regenerated model returns a
